@@ -37,4 +37,38 @@ theorem reload_changes_configuration :
 /-- the stored description does not mention the patch at all -/
 theorem store_ignores_patches : store 4 patched = store 4 { patched with patches := [] } := rfl
 
+/-! ### known finding `C07-platformless-restore-forgets-platform`
+
+"Loading and storing again does not change the stored description" is false of the code that exists when the
+instance was created for a platform `P ≠ default` and is loaded by `experimentFromInstance(dir)` (no platform; the
+reload re-stores): the description is stored for `default`, which drops the raw `override.P` blocks and writes
+`platforms: [default]`.  The resolved configuration is unchanged (`platformless_reload_preserves_resolution`), but
+the description on disk differs and can no longer be loaded naming `P` (`FlowIRPlatformUnknown`).
+
+Input: platform 1 (`hpc`), one component with variable 3 = "s" and `override.hpc.variables.3 = "f"`. -/
+
+def docP : Doc :=
+  { vars := [(0, ⟨[], []⟩), (1, ⟨[], []⟩)], bps := [],
+    comps := [{ stage := 0, name := 1, isDoc := false, opts := [(2, [.ref 3])], vars := [(3, [.ch 115])],
+                ovr := [⟨1, [], [(3, [.ch 102])]⟩] }] }
+
+def onHpc : Exp := { doc := docP, plat := 1, patches := [] }
+
+/-- the stored description holds the folded value and the raw override block … -/
+theorem store_keeps_override :
+    (store 4 onHpc).comps = [{ stage := 0, name := 1, isDoc := false, opts := [(2, [.ref 3])],
+                               vars := [(3, [.ch 102])], ovr := [⟨1, [], [(3, [.ch 102])]⟩] }] := by decide
+
+/-- … a platform-less load + store writes a different description (hypotheses of the round trip hold) … -/
+theorem platformless_store_changes_description :
+    resolves 4 onHpc.doc onHpc.plat = true ∧ store 4 (reloadAs 4 onHpc 0) ≠ store 4 onHpc := by decide
+
+/-- … that resolves to the same configuration … -/
+theorem platformless_same_configuration : runningConfig 4 (reloadAs 4 onHpc 0) = runningConfig 4 onHpc := by decide
+
+/-- … and whose platform list no longer admits a load that names the platform -/
+theorem platform_forgotten :
+    loadable (storedPlatforms onHpc.plat) onHpc.plat = true ∧
+    loadable (storedPlatforms (reloadAs 4 onHpc 0).plat) onHpc.plat = false := by decide
+
 end St4sd.C07.Witness
